@@ -80,6 +80,12 @@ theorem asis_dimension_partial (u v : KU) (h : devPair u v = false) :
 
 example : devPair .pt .inch = false := by decide
 
+theorem devPair_symm (u v : KU) : devPair u v = devPair v u := by
+  have hall : (KU.all.all fun u => KU.all.all fun v => devPair u v == devPair v u) = true := by
+    decide +kernel
+  have := (List.all_eq_true.mp ((List.all_eq_true.mp hall) u (KU.mem_all u))) v (KU.mem_all v)
+  simpa using this
+
 variable {α : Type} [UNum α]
 
 /-- hence outside the defect groups the code converts exactly like the specification -/
@@ -140,13 +146,29 @@ theorem sub_converts (q : UQuirks) (x y r : α) (u v : U) (hu : real u) (hv : re
     intro e; apply hne; simpa using e
   simp [numSub, numAddSub, h1, isNone_single _ hu, isNone_single _ hv, asUnitset, setScaleTo_single, h]
 
-/-- comparison converts the right operand likewise -/
+/-- comparison converts the right operand likewise; the result is `Equal` also when the
+conversion in the other direction finds the two equal (`cmpBothWays`) -/
 theorem cmp_converts (q : UQuirks) (x y r : α) (u v : U) (hu : real u) (hv : real v) (hne : u ≠ v)
     (h : scaleTo q v u = some r) :
-    numCmp q ⟨x, [(u, 1)]⟩ ⟨y, [(v, 1)]⟩ = .ord (cmp x (mul y r)) := by
+    numCmp q ⟨x, [(u, 1)]⟩ ⟨y, [(v, 1)]⟩
+      = .ord (cmpBothWays (cmp x (mul y r))
+          (match scaleTo (α := α) q u v with
+           | some r' => cmp (mul x r') y == some .eq
+           | none => false)) := by
   have h1 : ([(u, (1 : Int))] : UnitSet) ≠ [(v, 1)] := by
     intro e; apply hne; simpa using e
-  simp [numCmp, h1, isNone_single _ hu, isNone_single _ hv, asUnitset, setScaleTo_single, h]
+  simp only [numCmp, h1, isNone_single _ hu, isNone_single _ hv, asUnitset, setScaleTo_single, h,
+    if_false, Bool.or_self, Bool.false_eq_true, Option.map_some]
+  cases scaleTo (α := α) q u v <;> rfl
+
+/-- when the two directions agree (always in exact arithmetic) this is the plain comparison
+of `x` with the converted `y` -/
+theorem cmpBothWays_eq (res : Option Ordering) (back : Bool) (h : back = true → res = some .eq) :
+    cmpBothWays res back = res := by
+  unfold cmpBothWays
+  split
+  · next hc => exact absurd (h hc.2) hc.1
+  · rfl
 
 /-- the hypotheses are satisfiable: 1in + 1cm in the specification -/
 example : scaleTo (α := α) uSpec (.known .cm) (.known .inch) = some (div (ofNat 10) (div (ofNat 254) (ofNat 10))) := rfl
@@ -272,7 +294,8 @@ theorem convertible_asis_partial (x y r : α) (u v : KU) (hu : real (.known u)) 
   refine ⟨?_, ?_, ?_⟩
   · rw [add_converts uAsIs x y r _ _ hu hv hne' ha, add_converts uSpec x y r _ _ hu hv hne' h]
   · rw [sub_converts uAsIs x y r _ _ hu hv hne' ha, sub_converts uSpec x y r _ _ hu hv hne' h]
-  · rw [cmp_converts uAsIs x y r _ _ hu hv hne' ha, cmp_converts uSpec x y r _ _ hu hv hne' h]
+  · rw [cmp_converts uAsIs x y r _ _ hu hv hne' ha, cmp_converts uSpec x y r _ _ hu hv hne' h,
+      asis_scaleTo_partial u v (by rw [devPair_symm]; exact hdev)]
 
 example : devPair .cm .inch = false ∧ real (.known .cm) ∧ real (.known .inch) := by
   refine ⟨by decide, by simp [real], by simp [real]⟩
